@@ -503,6 +503,7 @@ def h10(ctx):
                       "%s completes several uncovered slots with ONE fresh slot (%s): two different slots are sent to the same name, the completed map is not injective — an e-node whose two redundant slots were identified re-canonicalises to a different shape, an invocation with a repeated argument is not a bijection" % (C.short(root.id), shared),
                       where_of(b, c.bb))
     ctx.floor("slot-map completion sites", len(sites), 1)
+    C.fresh_hoist_census(ctx, crate)
 
 
 RULES.append(h10)
